@@ -297,8 +297,8 @@ def printable_hash(rng):
     return (head + body)[:28]
 
 
-def mk_addr(rng, kp, ks, net, ptr=None, same=False):
-    h1 = rand_hash(rng)
+def mk_addr(rng, kp, ks, net, ptr=None, same=False, h1=None):
+    h1 = h1 or rand_hash(rng)
     h2 = h1 if same else rand_hash(rng)
     pay = [kp, h1] if kp else None
     if ks == 'ptr':
@@ -332,6 +332,8 @@ def gen_addr_cases(ctx):
                 for _ in range(reps):
                     cases.append(mk_addr(rng, kp, ks, net))
                 cases.append(mk_addr(rng, kp, ks, net, same=True))     # same bytes in both credentials
+                for head in (b'ddr1', b'take1', b'ddr_test1'):          # binary forms that read as the start of a Bech32 address
+                    cases.append(mk_addr(rng, kp, ks, net, h1=(head + printable_hash(rng))[:28].hex()))
         for kp, ks in BAD_KINDS:
             cases.append(mk_addr(rng, kp, ks, net))
     return cases
